@@ -52,9 +52,6 @@ func VerifC10RoundTrip() {
 	rt.Observe("ticks", int64(ticks))
 	rt.Observe("decoded_minus_orig", dec-orig)
 
-	// the pinned tree decodes late when the fractional second is within 5e-9 of the next second
-	fracNs := off % 1000000000
-	rt.Region("C10-late-second-rounding", fracNs >= 999999995)
 	rt.Assert(dec >= startSec*1000000000, "decoded-not-before-interval")
 	rt.Assert(dec < (startSec+tfSec)*1000000000, "decoded-inside-interval")
 	rt.Assert(dec <= orig, "decoded-not-later-than-original")
